@@ -159,6 +159,7 @@ Pool(n) == IF SimSample = 0 \/ Cardinality(Msgs) <= n THEN Msgs ELSE RandomSubse
 
 MsgSeqs == {<<m>> : m \in Pool(SimSample)}
            \cup (IF MaxTxLen >= 2 THEN {<<m1, m2>> : m1 \in Pool(SimSample \div 3 + 1), m2 \in Pool(SimSample \div 3 + 1)} ELSE {})
+           \cup (IF MaxTxLen >= 3 THEN {<<m1, m2, m3>> : m1 \in Pool(SimSample \div 6 + 1), m2 \in Pool(SimSample \div 6 + 1), m3 \in Pool(SimSample \div 6 + 1)} ELSE {})
 
 ReqSet(ms, ex) == LET r == Required([msgs |-> ms, exec |-> ex]) IN {r[i] : i \in DOMAIN r}
 
@@ -228,6 +229,12 @@ I_C13 == C13_Inv /\ C13_View(SpecView)
 \* state on the real application and fires the whole alphabet there.
 TourDump == PrintT(<<"TOUR", ToJson(path)>>)
 AlphabetDump == (path # << >>) \/ PrintT(<<"ALPHABET", ToJson(SetToSeq(Txs))>>)
+
+\* rollback probes (tours): every ordered pair of messages followed by a message that always fails, as ONE transaction - whatever the
+\* first two did is rolled back and must leave no trace (in the stores or in process memory) when the alphabet is fired afterwards
+FailMsg == [type |-> "aol.DeleteWriter", owner |-> Relayer, topic |-> "t9", writer |-> Relayer]      \* topic t9 is never created
+ProbeTxs == {[msgs |-> <<m1, m2, FailMsg>>, signers |-> ReqSet(<<m1, m2, FailMsg>>, "none"), fee |-> 0, exec |-> "none"] : m1 \in Msgs, m2 \in Msgs}
+ProbeDump == (path # << >>) \/ PrintT(<<"PROBES", ToJson(SetToSeq(ProbeTxs))>>)
 
 \* non-vacuity witnesses (each must be VIOLATED when listed as an invariant: TLC then shows a behaviour reaching it)
 W_TwoRecords == ~(\E k \in DOMAIN aolRecords : k[3] = 1)
